@@ -6,7 +6,7 @@
 (* result is computed by the specification module of that function.        *)
 (* Divergences are collected as data.  TRACE / OUT as in Trace_Session.    *)
 (***************************************************************************)
-EXTENDS ScriptNum, CryptoPrims, Json, IOUtils, TLC
+EXTENDS ScriptNum, Flags, Json, IOUtils, TLC
 
 Tr == ndJsonDeserialize(IOEnv.TRACE)
 OutFile == IOEnv.OUT
@@ -35,6 +35,16 @@ EncExpected(ev) ==
 EncObserved(ev) == [ser |-> ev.ser, valhex |-> ev.valhex, roundtrip |-> TRUE, backok |-> ev.backok]
 EncClass(ev) == <<"Enc", IF ev.neg THEN "neg" ELSE "nonneg", Len(H(ev.ser)), ev.backok>>
 
+(* ---- C09: --default-flags, --modify-flags, monotonicity pairs ---- *)
+SetOfSeq(q) == {q[i] : i \in 1..Len(q)}
+FlagListExpected(ev) == LET r == ModifyFlags(StrToCodes(ev.text)) IN [accepted |-> r[1], flags |-> r[2]]
+FlagListObserved(ev) == [accepted |-> ev.accepted, flags |-> SetOfSeq(ev.flags)]
+DefaultExpected(ev) == [flags |-> Standard, n |-> Cardinality(Standard)]
+DefaultObserved(ev) == [flags |-> SetOfSeq(ev.flags), n |-> Len(ev.flags)]
+\* A subset of B: success under B implies success under A (structural flags such as P2SH may change WHAT is evaluated, so stacks may differ)
+MonoExpected(ev) == [implication |-> TRUE]
+MonoObserved(ev) == [implication |-> (SetOfSeq(ev.A) \subseteq SetOfSeq(ev.B)) /\ (ev.okB => ev.okA)]
+
 Init == l = 1 /\ divs = <<>> /\ cov = {} /\ stats = [calls |-> 0]
 
 Judge(ev, exp, obs, class) ==
@@ -49,6 +59,9 @@ Next ==
     /\ LET ev == Tr[l] IN
        IF ev.e = "Num" THEN Judge(ev, NumExpected(ev), NumObserved(ev), NumClass(ev))
        ELSE IF ev.e = "Enc" THEN Judge(ev, EncExpected(ev), EncObserved(ev), EncClass(ev))
+       ELSE IF ev.e = "FlagList" THEN Judge(ev, FlagListExpected(ev), FlagListObserved(ev), <<"FlagList", ev.accepted, Len(ev.flags)>>)
+       ELSE IF ev.e = "DefaultFlags" THEN Judge(ev, DefaultExpected(ev), DefaultObserved(ev), <<"DefaultFlags">>)
+       ELSE IF ev.e = "MonoPair" THEN Judge(ev, MonoExpected(ev), MonoObserved(ev), <<"MonoPair", ev.okA, ev.okB>>)
        ELSE IF ev.e = "Crashed" THEN
             /\ divs' = Append(divs, [line |-> l, id |-> ev.e, what |-> "crash (signal, abort or uncaught exception)", expected |-> <<>>,
                                      observed |-> [crashed |-> ev, previous |-> IF l > 1 THEN Tr[l - 1] ELSE ev]])
